@@ -65,6 +65,34 @@ def opsC18 : List (String × Handler) := [
         | none => "bad-op"
       | _, _, _ => "bad-op"
     | _ => "bad-op"),
+  -- mk.prune.il <table> <pathsA> <pathsB> <ab|ba>: one prover, two LIVE cursors with interleaved Prune calls; every
+  -- cursor has its own prune set, so each proof is the one for its own paths, in either order of CreateProof
+  ("mk.prune.il", fun
+    | [t, ps1, ps2, order] => match parseTable t, parsePaths ps1, parsePaths ps2 with
+      | some tb, some p1, some p2 => match Table.root tb with
+        | some root =>
+          if (p1 ++ p2).any (fun p => (rowAt tb 0 p).isNone) then
+            match Cell.info sha256 root with
+            | .ok _ => "panic"
+            | .err _ => "err"
+            | .panic _ => "panic"
+          else
+            let ra := createProof sha256 (fun p => p1.contains p) root
+            let rb := createProof sha256 (fun p => p2.contains p) root
+            let first := if order == "ab" then ra else rb
+            let second := if order == "ab" then rb else ra
+            match first, second with
+            | .ok _, .ok _ =>
+              match ra, rb with
+              | .ok ca, .ok cb => "ok " ++ canonString (toTable ca) [0] ++ " | " ++ canonString (toTable cb) [0]
+              | _, _ => "err"
+            | .panic _, _ => "panic"
+            | .err _, _ => "err"
+            | .ok _, .panic _ => "panic"
+            | .ok _, .err _ => "err"
+        | none => "bad-op"
+      | _, _, _ => "bad-op"
+    | _ => "bad-op"),
   -- mk.prove2 <key1> <key2> <value width> <table>: one prover, a proof for key1 (result ignored), then for key2
   ("mk.prove2", fun
     | [k1, k2, vb, t] =>
